@@ -4,8 +4,8 @@
 (* suffix  for every message m of the universe (a seeded sample in the quick *)
 (* tier), so that every single-defect message meets every kind of state:     *)
 (* empty graph, known channel without / with policies and node               *)
-(* announcements at timestamp 2, premature updates waiting, zombie channel,  *)
-(* reject-cache entry.  The suffix announces the channels, which replays any *)
+(* announcements at timestamp 2, premature updates waiting, zombie channel   *)
+(* (zero keys / both keys / one key recorded), reject-cache entry.  The suffix announces the channels, which replays any *)
 (* update that m left in the premature stash.                                *)
 EXTENDS Gossip, Json, SequencesExt
 
@@ -25,12 +25,14 @@ Preludes == <<
   [name |-> "zombie",   pre |-> <<CAMsg(1, "none", "noblock", "p1")>>,          suf |-> Both],
   [name |-> "rejected", pre |-> <<CAMsg(1, "nsig1", "ok", "p1"),
                                   CUok(1, 0, 1, 1, "p2")>>,                     suf |-> Both],
+  [name |-> "zkboth",   pre |-> <<ZOMsg(1, "both")>>,                            suf |-> Both],
+  [name |-> "zkone",    pre |-> <<ZOMsg(1, "n2"), ZOMsg(2, "n1")>>,              suf |-> Both],
   [name |-> "two",      pre |-> <<CAok(1, "p1"), CAok(2, "p1"), CUok(2, 0, 1, 2, "p1"),
                                   NAok(3, 1, "p2")>>,                            suf |-> <<>>]
 >>
 
 ASSUME \A i \in 1..Len(Preludes) :
-          /\ \A j \in 1..Len(Preludes[i].pre) : Preludes[i].pre[j] \in Universe
+          /\ \A j \in 1..Len(Preludes[i].pre) : Preludes[i].pre[j] \in Universe \cup ZOUniverse
           /\ \A j \in 1..Len(Preludes[i].suf) : Preludes[i].suf[j] \in Universe
 ASSUME ndJsonSerialize("universe.ndjson", SetToSeq(Universe))
 ASSUME ndJsonSerialize("preludes.ndjson", Preludes)
